@@ -34,7 +34,10 @@ TRUSTED = [
     "Coq 8.16.1 kernel + vm_compute (no native_compute); stdlib Mergesort instance as the executable sort",
     "model abstraction: property values dropped (DenseI32/F64/Element -> Dense len, SparseElement/SparseProperty -> key list), "
     "FxHashMap/hashbrown/indexmap/Vec semantics modelled (any iteration order; IndexMap = entries vector + first-match search)",
-    "realm part is a model of the object-capability discipline, tied to the code only by the cross-realm/sabotage differential",
+    "realm part: Deep_Realm_C20 transliterates vm.frame().realm / enter_realm / swap_realm / native_function_call+construct / function_call / "
+    "Script::parse+evaluate / create_realm and is tied by the call-tree probe correspondence; frames are assumed balanced (C07's theorem); "
+    "the object-capability model (realm_frame) remains a model of the discipline tied only by the differential",
+    "tools/gen_c20.py (regex inventory of thread_local!/static/lazy items; classification table by hand) -> coq/Gen/Statics_C20.v",
     "harness/src/bin/iso.rs (host functions print/$iso, catch_unwind, one worker thread), gen/c20_gen.py, this driver",
     "implementation-level determinism (addresses, hash seeds, thread-local caches, GC timing) is search, not proof",
 ]
@@ -620,10 +623,23 @@ def main():
                        "search cases: (program, configuration) pairs compared with the reference run, non-trivial when the program printed >= 2 lines; "
                        "distinct = distinct (history | program text, configuration)")
     broken = None
-    pr = vlib.proof_stage(PROP, ["C20"], "C20/Props_C20.v")
+    # translator: inventory of thread_local!/static/lazy state regenerated from the sources -> coq/Gen/Statics_C20.v
+    sinfo = None
+    try:
+        import gen_c20
+        text, sinfo = gen_c20.generate(vlib.REPO)
+        vlib.write_if_changed(os.path.join(vlib.COQ, "Gen", "Statics_C20.v"), text)
+        run.cov["statics_inventory"] = {"items": sinfo["items"], "by_class": sinfo["by_class"], "unclassified": sinfo["unclassified"],
+                                         "table": [[r["class"], r["file"], r["name"], r["kind"]] for r in sinfo["table"]]}
+    except Exception as e:
+        broken = {"kind": "translator", "detail": {"error": "%s: %s" % (type(e).__name__, e)}}
+    pr = vlib.proof_stage(PROP, ["C20", "Gen"], "C20/Props_C20.v")
     run.set_proof(pr, TRUSTED)
     if not pr["ok"]:
-        broken = pr["broken"]
+        broken = broken or pr["broken"]
+        if sinfo and sinfo["unclassified"]:
+            broken = dict(broken)
+            broken["unclassified_statics"] = sinfo["unclassified"]
     ok, paths, blog = vlib.harness_build(["iso"])
     if not ok:
         if re.search(r"^error", blog, re.M):
@@ -642,16 +658,25 @@ def main():
     run.cov["mapset_model_variant"] = "mrun_fixed (tree has the clear-under-iterator fix; theorem iteration_is_insertion_order_with_fix)" if fixed else "mrun (unpatched clear(); theorems iteration_is_insertion_order + iteration_unguarded_refuted)"
     # independent generators per phase (so that the phases can run concurrently and stay reproducible from the seed)
     rk, rm, rs, rs2 = (random.Random(run.rng.getrandbits(64)) for _ in range(4))
-    with ThreadPoolExecutor(max_workers=3) as ex:
+    rt = random.Random(run.seed * 7919 + 17)
+    ntree = 500 if enlarged else 60
+    with ThreadPoolExecutor(max_workers=4) as ex:
+        ft = ex.submit(realm_correspondence, run, rt, binpath, ntree)                  # correspondence (iii)
         fk = ex.submit(keys_correspondence, run, rk, binpath, nk, nkb, ckeys)          # correspondence (i)
         fm = ex.submit(maps_correspondence, run, rm, binpath, nm, nmb, cmaps, fixed)   # correspondence (ii)
         fs = ex.submit(determinism_search, run, rs, binpath, npg, nx, cprogs)          # search
         kbad, kerr, kfeat = fk.result()
         mbad, merr, mfeat, mstats = fm.result()
         found, pfeat, pstats = fs.result()
+        tbad, terr, tfeat, tstats = ft.result()
+    run.cov["realm_tree_feature_distribution"] = dict(tfeat)
+    run.cov["realm_tree_stats"] = tstats
+    if tbad is None:
+        corr_broken = {"kind": "correspondence", "detail": terr}
+        tbad = []
     run.cov["keys_feature_distribution"] = dict(kfeat)
     if kbad is None:
-        corr_broken = {"kind": "correspondence", "detail": kerr}
+        corr_broken = corr_broken or {"kind": "correspondence", "detail": kerr}
         kbad = []
     run.cov["mapset_feature_distribution"] = dict(mfeat)
     run.cov["mapset_stats"] = mstats
@@ -659,7 +684,7 @@ def main():
         corr_broken = corr_broken or {"kind": "correspondence", "detail": merr}
         mbad = []
     # a broken correspondence enlarges the search for a failing input of the property itself
-    if (kbad or mbad or corr_broken) and not enlarged and not found:
+    if (kbad or mbad or tbad or corr_broken) and not enlarged and not found:
         found2, pfeat2, pstats2 = determinism_search(run, rs2, binpath, 300, 60, (), idtag="e")
         found += found2
         pstats["enlarged"] = pstats2
@@ -687,14 +712,22 @@ def main():
                        "obligation": "own-key order: boa vs coq/C20 prun_keys (own_keys_executable)", "input": b["program"],
                        "checkpoint": b["checkpoint"], "ops": b["ops"], "model_output": b["model"], "impl_output": b["impl"],
                        "how_to_rerun": "./check replay <this file>"}, found_input=True)
+    for b in tbad[:4]:
+        restored = b["host_realm_restored"]
+        run.violation({"kind": "correspondence-broken" if restored else "counterexample",
+                       "class": "realm-mechanism-model-mismatch" if restored else "host-realm-not-restored",
+                       "obligation": "current realm probes of a cross-realm call tree: boa vs coq/C20 Deep_Realm_C20.run (realm_restored, global_resolution_in_own_realm)",
+                       "input": b["program"], "config": "kind=tree,realms=%d" % b["realms"], "aux": "\x1e".join("%d|%s" % tuple(d) for d in b["defs"]),
+                       "tree": b["tree"], "model_output": b["model"], "impl_output": b["impl"], "raw": b["raw"],
+                       "how_to_rerun": "./check replay <this file>"}, found_input=True)
     for b in mbad[:4]:
         run.violation({"kind": "correspondence-broken", "class": "mapset-model-mismatch", "obligation": "Map/Set history: boa vs coq/C20 mrun",
                        "input": b["program"], "detail": {k: v for k, v in b.items() if k != "program"},
                        "how_to_rerun": "./check replay <this file>"}, found_input=True)
-    if corr_broken is not None and not (found or kbad or mbad):
+    if corr_broken is not None and not (found or kbad or mbad or tbad):
         run.violation({"kind": "correspondence-broken", "obligation": "model evaluation (vm_compute cases file)", "detail": corr_broken,
                        "search": "enlarged determinism/isolation search found no failing input"}, found_input=False)
-    if broken is not None and not (found or kbad or mbad):
+    if broken is not None and not (found or kbad or mbad or tbad):
         run.violation({"kind": "proof-broken", "obligation": "C20/Props_C20.v", "detail": broken,
                        "search": "enlarged correspondence + determinism/isolation search found no failing input"}, found_input=False)
     elif broken is not None:
@@ -708,6 +741,8 @@ def replay(obj):
     binpath = paths["iso"]
     prog = obj.get("input", "")
     cases = [("ref", "kind=fresh", prog, "")]
+    if str(obj.get("config", "")).startswith("kind=tree"):
+        cases = []
     if obj.get("config"):
         cases.append(("cfg", obj["config"], prog, obj.get("aux", "")))
     r = run_iso(binpath, cases, timeout=600) or {}
